@@ -200,7 +200,19 @@ class SymCtx:
         return self.loader.find_class(qualname)
 
     def obj(self, qualname, **fields):
-        o = V.Obj(self.loader.find_class(qualname))
+        k = self.loader.find_class(qualname)
+        slots = None
+        for cl in k.mro():
+            sl = cl.attrs.get('__slots__')
+            if sl is None:
+                slots = None
+                break
+            slots = (slots or set()) | set(sl)
+        if slots is not None:
+            bad = [f for f in fields if f not in slots]
+            if bad:
+                raise AttributeError('%s has no slot(s) %s' % (qualname, bad))
+        o = V.Obj(k)
         o.fields.update(fields)
         return o
 
@@ -223,9 +235,14 @@ class SymCtx:
         """spec-side floor division by a positive divisor: (q, r) with x = d*q + r, 0 <= r < d"""
         if not is_sym(x) and not is_sym(d):
             return x // d, x % d
+        cache = self.p.ghost.setdefault('div_cache', {})
+        key = (x.get_id() if is_sym(x) else ('c', x), d.get_id() if is_sym(d) else ('c', d))
+        if key in cache:
+            return cache[key][2], cache[key][3]
         q = self.p.fresh_int('sq')
         r = self.p.fresh_int('sr')
         self.p.assume(z3.And(sx.lift_int(x) == d * q + r, r >= 0, r < d))
+        cache[key] = (x, d, q, r)
         return q, r
 
 
